@@ -19,7 +19,12 @@ RULE = ('case = (device profile, server capability list, Manager method, argumen
         'class, messages sent, sequence of capability tests, registration, and the capability-dependent constructs of every '
         'message that reached the server (harness/wiregate.py: expat + RFC 6241/6243/5277 table), each of which must be '
         'backed by an advertised capability whatever the call was. distinct = distinct case; non-trivial = the call '
-        'has at least one documented dependency.')
+        'has at least one documented dependency. Order of calls (harness/prepared.py): every core call, half of the commit records, '
+        'a third of the argument catalogue and the vendor calls are also made on an operation object built directly (the class a '
+        'Manager of the profile would use) on a session whose server_capabilities is None until connect(): object built BEFORE '
+        'connect then request() after (pcr), and built after connect (cpr), x every subset of the capabilities the call can depend on; '
+        'either the construction fails (nothing sent, nothing registered) or request() is judged like a Manager call, and the '
+        'wire-level oracle reads whatever reached the session.')
 ASSUMES = ['mode.strip().lower() is computed by CPython and given to the model as the normalised mode (oracle input)',
            'lxml verdicts on names/characters, validated_element, urlparse verdicts are oracle inputs fixed per catalogue entry',
            'C08 model of Capabilities (coq/Model/Caps.v) - validated by ./check C08']
@@ -297,6 +302,9 @@ def enc_sess(uris, no_attr): return [1] if no_attr else [0, [u.encode('utf-8') f
 def impl_run(case, b=None):
     from harness import capture
     b = b or build(case['call'])
+    if case.get('order'):                       # the operation object built directly, before / after the <hello> (harness/prepared.py)
+        from harness import prepared
+        return b, prepared.run(case['profile'], case['uris'], b['method'], dict(b['kwargs']), case['order'])
     m, s = capture.make_manager(case['profile'], case['uris'], no_caps_attr=case.get('no_attr', False))
     r = capture.call(m, s, b['method'], kwargs={k: v for k, v in b['kwargs'].items()})
     return b, r
@@ -343,8 +351,23 @@ def wire_judge(case, r):
 def judge(case, b, r):
     """property oracle on the implementation: returns None or (what, sig, expected, actual)"""
     if case.get('no_attr'): return None        # outside the property's quantification (no capability set at all)
-    j = judge_call(case, b, r)
+    if case.get('order') == 'pcr' and r.get('stage') == 'construct':
+        j = judge_early(case, b, r)
+    else:
+        j = judge_call(case, b, r)
     return j if j else wire_judge(case, r)
+
+def judge_early(case, b, r):
+    """the object was to be built while the server's capabilities were not known yet, and the construction raised: the
+    history ends there.  Nothing may have been sent.  For an operation with a documented dependency that is a local refusal
+    (the library cannot tell yet whether the server will advertise it); an operation without any must be constructible."""
+    act = ('exc', r['exc'], 'at construction, before the <hello>')
+    if r['sent']:
+        return ('construction raised %s yet %d message(s) were sent' % (r['exc'], len(r['sent'])), 'sent_when_refused', ('exc', None), act)
+    if b['wf'] and not b['needs']:
+        return ('an operation without a documented dependency could not be built before connect(): %s' % r['exc'],
+                'raised_when_allowed', ('sent',), act)
+    return None
 
 def judge_call(case, b, r):
     exp = oracle(case['uris'], b)
@@ -592,6 +615,46 @@ def gen_cases(ctx, rng, tier):
     # (i) vendor classes (alu load_configuration / get_configuration, h3c get_bulk_config: the callers of datastore_or_url; all others)
     from harness import vendorgate
     cases += vendorgate.gen_cases(rng, tier, sets)
+    # (j) the operation object built directly, before / after the session is connected (harness/prepared.py)
+    cases += order_cases(rng)
+    return cases
+
+def model_call(c, b):
+    """runner call: fn 1 / 3 = Manager call (Gating.perform / VendorGating.vperform); fn 4 = the object built before (0) / after
+    (1) the <hello>, request() on the connected session (Gating.perform_at / VendorGating.vperform_at)"""
+    fn = b.get('fn', 1)
+    if c.get('order'):
+        return [4, {'pcr': 0, 'cpr': 1}[c['order']], enc_sess(c['uris'], False), 0 if fn == 1 else 1, b['model']]
+    return [fn, enc_sess(c['uris'], c.get('no_attr', False)), b['model']]
+
+def order_cases(rng):
+    """(j) order of calls: every core call (standard, commit argument records, power-control, vendor classes, every third
+    argument-catalogue call) made on an operation object built directly - before the session is connected (pcr) and after
+    (cpr) - x every subset of the capabilities the call can depend on (the others random) x both URN forms"""
+    from harness import vendorgate, prepared
+    cases = []
+    calls = core_calls() + commit_calls()[::2] + malformed_calls()[::3] + vendorgate.core_calls() + vendorgate.other_calls()[::5]
+    for call in calls:
+        b = build(call); rel = relevant_mask(b)
+        prof = vendorgate.profile_of(call) if call[0].startswith('v:') else profile_for(call)
+        for bits in itertools.product((0, 1), repeat=len(rel)):
+            on = {rel[i] for i in range(len(rel)) if bits[i]}
+            for form in (A, B):
+                other = {i for i in range(8) if i not in rel and rng.random() < 0.5}
+                uris = [form + ATOMS[i] for i in sorted(on | other)]
+                rng.shuffle(uris)
+                for order in prepared.ORDERS:
+                    cases.append(dict(profile=prof, uris=uris, call=call, order=order))
+    for op in ('poweroff_machine', 'reboot_machine'):
+        for uris in ([], [PC_OFF], [PC_RE], [PC_OFF, PC_RE]):
+            for order in prepared.ORDERS:
+                cases.append(dict(profile='default', uris=uris, call=[op, {}], order=order))
+    # the with-defaults lookup of an object built early runs against the capabilities of the connected session
+    for p in WD_PARAMS[:4]:
+        for mode in MODES[:6]:
+            for order in prepared.ORDERS:
+                cases.append(dict(profile='default', uris=[A + 'with-defaults:1.0' + p], order=order,
+                                  call=['get', dict(filter='nofilter', wd=mode)]))
     return cases
 
 def key_of(case):
@@ -599,7 +662,7 @@ def key_of(case):
 
 def run_cases(ctx, cases, record=True):
     builds = [build(c['call']) for c in cases]
-    calls = [[b.get('fn', 1), enc_sess(c['uris'], c.get('no_attr', False)), b['model']] for c, b in zip(cases, builds)]
+    calls = [model_call(c, b) for c, b in zip(cases, builds)]
     outs = ctx.model.batch(calls) if ctx.model else [None] * len(cases)
     for case, b, mo in zip(cases, builds, outs):
         b2, r = impl_run(case, b)
@@ -608,6 +671,8 @@ def run_cases(ctx, cases, record=True):
             ctx.count(case, nontrivial=bool(b['needs']), key=key_of(case))
             ctx.hist('method', b['method']); ctx.hist('impl_outcome', im['exc'] or 'sent'); ctx.hist('profile', case['profile'])
             ctx.hist('n_needs', len(b['needs'])); ctx.hist('wellformed', b['wf'])
+            ctx.hist('order', case.get('order') or 'manager-call')
+            if case.get('order'): ctx.hist('order_outcome', '%s %s@%s' % (case['order'], im['exc'] or 'sent', r.get('stage')))
             if case['call'][0].startswith('v:'): ctx.hist('vendor_call', case['call'][0][2:])
             if ctx.evaluations % 4001 == 1: ctx.sample({'case': json.loads(key_of(case)), 'impl': im})
         if mo is not None:
@@ -616,7 +681,11 @@ def run_cases(ctx, cases, record=True):
             else:
                 mm = canon_model(mo)
                 if mm != im:
-                    ctx.disagree(json.loads(key_of(case)), mm, im, 'Gating.perform vs Manager call', theorem='C09_refused/C09_allowed')
+                    if case.get('order'):
+                        ctx.disagree(json.loads(key_of(case)), mm, im, 'Gating.perform_at vs the operation object built directly (%s)' % case['order'],
+                                     theorem='C09_order_refused/C09_order_wire_backed')
+                    else:
+                        ctx.disagree(json.loads(key_of(case)), mm, im, 'Gating.perform vs Manager call', theorem='C09_refused/C09_allowed')
         j = judge(case, b, r)
         if j:
             what, sig, exp, act = j
@@ -692,5 +761,6 @@ def replay(doc):
     print('case     :', case)
     print('expected :', oracle(case['uris'], b))
     print('actual   :', canon_impl(r))
+    if case.get('order'): print('history  : %s, raised at: %s' % (case['order'], r.get('stage')))
     if j: print('verdict  :', j[0])
     return j is None
